@@ -92,7 +92,8 @@ def encode_report(st: dict, *, indoor: Optional[tuple[int, int]] = (0x62, 0), ou
     b[11] = indoor[0] if indoor else 0xFF
     b[12] = outdoor[0] if outdoor else 0xFF
     b[13] = alt | (0x20 if filter_alert else 0)
-    b[14] = 0x00 if st["display_on"] else 0x70
+    # 3-bit display field: 7 = off, 0..6 = on (brightness / auto levels); "display_level" is optional in the state dict
+    b[14] = ((st.get("display_level", 0) & 7) % 7) << 4 if st["display_on"] else 0x70
     b[15] = ((outdoor[1] if outdoor else 0) << 4) | (indoor[1] if indoor else 0)
     if len(b) > 19:
         b[19] = st["humidity"] & 0x7F
